@@ -36,7 +36,7 @@ def _val(v):
 class DensityDiameterHistory(History):
     name = 'history'
     doc = 'stateful machine: set density / diameter on one type or a list, model comparison after every step'
-    budget = {'quick': 320, 'thorough': 16000}
+    budget = {'quick': 320, 'thorough': 96000}
     steps = {'quick': 20, 'thorough': 30}
 
     def params_strategy(self, tier):
